@@ -219,10 +219,97 @@ fn type_prelude() -> String {
 pub struct Candidate {
     pub ty: Ty,
     pub clauses: Vec<Pat>,
+    /// binding family: every clause body returns a number made of the clause index and a
+    /// digest of each variable the pattern binds (so a mis-bound variable is observable)
+    pub bind: bool,
+}
+
+/// digest helpers (source); the prefix of a variable's name tells its type
+const DIGESTS: &str = "fn d_i(x: Int) -> Int {\n  x + 1\n}\n\nfn d_b(x: Bool) -> Int {\n  if x {\n    2\n  } else {\n    1\n  }\n}\n\nfn d_o(x: Option<Int>) -> Int {\n  when x is {\n    None -> 0\n    Some(n) -> n + 1\n  }\n}\n\nfn d_l(xs: List<Int>) -> Int {\n  when xs is {\n    [] -> 0\n    [x, ..rest] -> x + 1 + 4 * d_l(rest)\n  }\n}\n";
+
+fn digest(name: &str, v: &Val) -> BigInt {
+    match (name.chars().next().unwrap_or(' '), v) {
+        ('i', Val::Int(n)) => n + 1,
+        ('b', Val::Bool(b)) => BigInt::from(if *b { 2 } else { 1 }),
+        ('o', Val::Ctor(0, fs)) => match &fs[0] {
+            Val::Int(n) => n + 1,
+            _ => BigInt::from(0),
+        },
+        ('o', Val::Ctor(_, _)) => BigInt::from(0),
+        ('l', Val::List(xs)) => xs.iter().rev().fold(BigInt::from(0), |acc, x| match x {
+            Val::Int(n) => n + 1 + 4 * acc,
+            _ => acc,
+        }),
+        _ => BigInt::from(0),
+    }
+}
+
+fn pat_vars(p: &Pat, out: &mut Vec<String>) {
+    match p {
+        Pat::Var(x) => out.push(x.clone()),
+        Pat::As(q, x) => {
+            out.push(x.clone());
+            pat_vars(q, out)
+        }
+        Pat::Ctor(_, _, ps, _) | Pat::Tuple(ps) => ps.iter().for_each(|q| pat_vars(q, out)),
+        Pat::Pair(a, b) => {
+            pat_vars(a, out);
+            pat_vars(b, out)
+        }
+        Pat::List(ps, tail) => {
+            ps.iter().for_each(|q| pat_vars(q, out));
+            if let Some(Some(x)) = tail {
+                out.push(x.clone())
+            }
+        }
+        _ => {}
+    }
+}
+
+fn digested(name: &str) -> bool {
+    matches!(name.chars().next(), Some('i' | 'b' | 'o' | 'l')) && name.chars().nth(1).map(|c| c.is_ascii_digit()).unwrap_or(false)
+}
+
+/// what the clause `idx` must return for the value `v` (binding family)
+fn expected_value(c: &Candidate, idx: usize, v: &Val) -> BigInt {
+    if !c.bind {
+        return BigInt::from(idx);
+    }
+    let mut binds = vec![];
+    assert!(match_pat(&c.clauses[idx], v, &mut binds));
+    let mut vars = vec![];
+    pat_vars(&c.clauses[idx], &mut vars);
+    let mut total = BigInt::from(idx) * 1_000_000;
+    let mut w = BigInt::from(1);
+    for name in vars.iter().filter(|n| digested(n)) {
+        let val = binds.iter().find(|(n, _)| n == name).map(|(_, v)| v).expect("bound");
+        total += digest(name, val) * &w;
+        w *= 50;
+    }
+    total
+}
+
+fn body_of(c: &Candidate, idx: usize) -> String {
+    if !c.bind {
+        return idx.to_string();
+    }
+    let mut vars = vec![];
+    pat_vars(&c.clauses[idx], &mut vars);
+    let mut s = (idx * 1_000_000).to_string();
+    let mut w: u64 = 1;
+    for name in vars.iter().filter(|n| digested(n)) {
+        s.push_str(&format!(" + d_{}({name}) * {w}", &name[..1]));
+        w *= 50;
+    }
+    s
 }
 
 pub fn source_of(c: &Candidate) -> (String, Vec<(usize, usize)>) {
     let mut s = type_prelude();
+    if c.bind {
+        s.push('\n');
+        s.push_str(DIGESTS);
+    }
     s.push_str(&format!("\npub fn f0(x: {}) -> Int {{\n  when x is {{\n", show_ty(&c.ty)));
     let mut spans = vec![];
     for (i, p) in c.clauses.iter().enumerate() {
@@ -230,7 +317,7 @@ pub fn source_of(c: &Candidate) -> (String, Vec<(usize, usize)>) {
         let a = s.len();
         s.push_str(&show_pat(p));
         spans.push((a, s.len()));
-        s.push_str(&format!(" -> {i}\n"));
+        s.push_str(&format!(" -> {}\n", body_of(c, i)));
     }
     s.push_str("  }\n}\n");
     (s, spans)
@@ -366,11 +453,13 @@ fn check_candidate(c: &Candidate, base: &Proj, l: &mut Local) {
                 let want = first_match(&c.clauses, v).unwrap();
                 *l.clause_taken.entry(want).or_default() += 1;
                 let got = run_program(&program, &[to_data(v, &c.ty)]);
-                let ok = matches!(&got, Ran::Value(Term::Constant(k)) if matches!(k.as_ref(), Constant::Integer(n) if *n == BigInt::from(want)));
+                let want_value = expected_value(c, want, v);
+                let ok = matches!(&got, Ran::Value(Term::Constant(k)) if matches!(k.as_ref(), Constant::Integer(n) if *n == want_value));
                 if !ok {
+                    let right_clause = matches!(&got, Ran::Value(Term::Constant(k)) if matches!(k.as_ref(), Constant::Integer(n) if n / 1_000_000 == BigInt::from(want) && c.bind));
                     l.violations.push(Violation {
-                        signature: format!("wrong-clause-taken|{tname}|{}", sequence_class(&c.clauses)),
-                        what: format!("for the value {} the first matching clause is {want} (`{}`) but the compiled code gives {:?}:\n{src}", crate::engine::show_val(v), show_pat(&c.clauses[want]), match &got { Ran::Value(t) => t.to_pretty(), Ran::Error(e) => e.clone(), Ran::Panic(p) => p.clone() }),
+                        signature: if right_clause { format!("pattern-variable-bound-to-the-wrong-value|{tname}") } else { format!("wrong-clause-taken|{tname}|{}", sequence_class(&c.clauses)) },
+                        what: format!("for the value {} the first matching clause is {want} (`{}`, expected result {want_value}) but the compiled code gives {:?}:\n{src}", crate::engine::show_val(v), show_pat(&c.clauses[want]), match &got { Ran::Value(t) => t.to_pretty(), Ran::Error(e) => e.clone(), Ran::Panic(p) => p.clone() }),
                         case: case.clone(),
                     });
                     break;
@@ -431,26 +520,107 @@ fn list_column_family(tier: Tier) -> (Ty, Vec<Pat>, Vec<Vec<u16>>) {
 /// shareable `CandIx` list - materialising every candidate in every worker cost 3 GB each in
 /// the thorough tier.
 pub struct Tables {
-    fams: Vec<(Ty, Vec<Pat>, bool)>,
+    /// (type, patterns, rename variables, binding family)
+    fams: Vec<(Ty, Vec<Pat>, bool, bool)>,
 }
 
 /// (family, clause pattern indices)
 pub type CandIx = (u16, Vec<u16>);
 
+/// patterns with a *typed variable* possible at every position (binding family)
+fn vpats(ty: &Ty, depth: usize) -> Vec<Pat> {
+    let var = |t: &Ty| -> Pat {
+        Pat::Var(
+            match t {
+                Ty::Int => "i",
+                Ty::Bool => "b",
+                Ty::Opt(e) if **e == Ty::Int => "o",
+                Ty::List(e) if **e == Ty::Int => "l",
+                _ => "z",
+            }
+            .into(),
+        )
+    };
+    let mut out = vec![Pat::Discard, var(ty)];
+    let product = |subs: Vec<Vec<Pat>>| -> Vec<Vec<Pat>> {
+        let mut rows: Vec<Vec<Pat>> = vec![vec![]];
+        for sub in subs {
+            rows = rows.into_iter().flat_map(|pre| sub.iter().map(move |p| [pre.as_slice(), &[p.clone()]].concat())).collect();
+        }
+        rows
+    };
+    match ty {
+        Ty::Int => {
+            out.push(Pat::Int(0));
+            out.push(Pat::Int(1));
+        }
+        Ty::Bool => {
+            out.push(Pat::Ctor(Ty::Bool, 0, vec![], false));
+            out.push(Pat::Ctor(Ty::Bool, 1, vec![], false));
+        }
+        Ty::Opt(_) | Ty::Adt(_) => {
+            for c in 0..ctor_count(ty) {
+                let fts = ctor_fields(ty, c);
+                if fts.is_empty() {
+                    out.push(Pat::Ctor(ty.clone(), c, vec![], false));
+                } else if depth > 0 {
+                    for r in product(fts.iter().map(|(_, ft)| if ft == ty { vec![Pat::Discard] } else { vpats(ft, depth - 1) }).collect()) {
+                        out.push(Pat::Ctor(ty.clone(), c, r, false));
+                    }
+                }
+            }
+        }
+        Ty::Tuple(ts) if depth > 0 => out.extend(product(ts.iter().map(|t| vpats(t, depth - 1)).collect()).into_iter().map(Pat::Tuple)),
+        Ty::Pair(a, b) if depth > 0 => {
+            for r in product(vec![vpats(a, depth - 1), vpats(b, depth - 1)]) {
+                out.push(Pat::Pair(Box::new(r[0].clone()), Box::new(r[1].clone())));
+            }
+        }
+        Ty::List(e) if depth > 0 => {
+            let sub = vpats(e, depth - 1);
+            out.push(Pat::List(vec![], None));
+            for p in &sub {
+                out.push(Pat::List(vec![p.clone()], None));
+                out.push(Pat::List(vec![p.clone()], Some(None)));
+                out.push(Pat::List(vec![p.clone()], Some(Some("l".into()))));
+                for q in &sub {
+                    out.push(Pat::List(vec![p.clone(), q.clone()], None));
+                    out.push(Pat::List(vec![p.clone(), q.clone()], Some(Some("l".into()))));
+                }
+            }
+        }
+        _ => {}
+    }
+    out
+}
+
+fn binding_types(tier: Tier) -> Vec<Ty> {
+    let oi = || opt(Ty::Int);
+    let mut v = vec![Ty::Tuple(vec![oi(), oi()]), Ty::Pair(Rc::new(Ty::Int), Rc::new(Ty::Int)), Ty::Adt("Shape"), Ty::List(Rc::new(Ty::Int))];
+    if tier == Tier::Thorough {
+        v.extend([Ty::Tuple(vec![Ty::Int, Ty::Bool, Ty::Int]), opt(Ty::Tuple(vec![Ty::Int, Ty::Int])), Ty::Tuple(vec![oi(), Ty::Pair(Rc::new(Ty::Int), Rc::new(Ty::Int))])]);
+    }
+    v
+}
+
 impl Tables {
     pub fn new(tier: Tier) -> Tables {
         let (ty, ps, _) = list_column_family(tier);
-        let mut fams = vec![(ty, ps, false)];
+        let mut fams = vec![(ty, ps, false, false)];
         for ty in scrutinee_types(tier) {
             let ps = pats(&ty, 2, false);
-            fams.push((ty, ps, true));
+            fams.push((ty, ps, true, false));
+        }
+        for ty in binding_types(tier) {
+            let ps = vpats(&ty, 2);
+            fams.push((ty, ps, true, true));
         }
         Tables { fams }
     }
     pub fn materialise(&self, ix: &CandIx) -> Candidate {
-        let (ty, ps, rename_vars) = &self.fams[ix.0 as usize];
+        let (ty, ps, rename_vars, bind) = &self.fams[ix.0 as usize];
         let mut n = 0;
-        Candidate { ty: ty.clone(), clauses: ix.1.iter().map(|k| if *rename_vars { rename(&ps[*k as usize], &mut n) } else { ps[*k as usize].clone() }).collect() }
+        Candidate { ty: ty.clone(), clauses: ix.1.iter().map(|k| if *rename_vars { rename(&ps[*k as usize], &mut n) } else { ps[*k as usize].clone() }).collect(), bind: *bind }
     }
 }
 
@@ -480,6 +650,24 @@ pub fn candidate_index(tier: Tier) -> Vec<CandIx> {
             // keep the product in check for the large pattern sets in the thorough tier
             if seqs.len() > 400_000 {
                 break;
+            }
+        }
+    }
+    // binding family: all clause pairs; triples whose last clause is irrefutable (`_` or a
+    // variable, indices 0 and 1: the shape in which one clause is reached from several
+    // sub-matrices); thorough: all triples for the smaller pattern sets
+    let base = 1 + scrutinee_types(tier).len();
+    for (f, ty) in binding_types(tier).into_iter().enumerate() {
+        let np = vpats(&ty, 2).len() as u16;
+        let fam = (base + f) as u16;
+        for a in 0..np {
+            out.push((fam, vec![a]));
+            for b in 0..np {
+                out.push((fam, vec![a, b]));
+                let lasts: Vec<u16> = if tier == Tier::Thorough && np <= 60 { (0..np).collect() } else { vec![0, 1] };
+                for c in lasts {
+                    out.push((fam, vec![a, b, c]));
+                }
             }
         }
     }
